@@ -255,9 +255,12 @@ fn on_freed(kind: &'static str, owner: u32, _addr: usize) {
         format!(
             "{}{} of a freed gc object owned by heap {} while: {}",
             if context.contains("module-level cell") {
-                "module-level cell: "
+                "module-level cell: ".to_string()
+            } else if let (Some(a), Some(b)) = (context.find("{{"), context.find("}}")) {
+                // the engine tags situations that belong to a recorded finding
+                format!("{}: ", &context[a + 2..b])
             } else {
-                ""
+                String::new()
             },
             kind,
             owner,
